@@ -1,6 +1,7 @@
 package harness
 
 import (
+	"math"
 	"bytes"
 	"fmt"
 	"math/rand"
@@ -148,7 +149,7 @@ func (c14) Run(c *Case, st *Stats) []Violation {
 			prodDone = true
 		})
 		simrt.GoKind("client", func() {
-			strat := buildStrategy(c.spec())
+			strat := c.strat()
 			rep = strat.Report(in)
 			writeErr = rep.WriteToWriter(&buf)
 			rendered = true
@@ -258,7 +259,7 @@ func (c14) Run(c *Case, st *Stats) []Violation {
 	// reference: the same strategy's Compute + Outcome, run separately
 	ref := runPipe(PipeOpts{SimOpts: SimOpts{Policy: simrt.PolicySpec{Name: "fifo"}}}, [][]*asset.Snapshot{snaps},
 		func(in []<-chan *asset.Snapshot) []<-chan F {
-			a, o := strategy.ComputeWithOutcome(buildStrategy(c.spec()), in[0])
+			a, o := strategy.ComputeWithOutcome(c.strat(), in[0])
 			return []<-chan F{helper.Map(a, func(x strategy.Action) F { return F(x) }), o}
 		})
 	st.noteSim(&ref.SimOut)
@@ -276,6 +277,29 @@ func (c14) Run(c *Case, st *Stats) []Violation {
 				norm = append(norm, strategy.Hold)
 			}
 		}
+	}
+	// the outcome as of d = what following the recommended actions up to d has made of one unit:
+	// a plain trade simulation (buy with everything when not invested, sell everything when invested)
+	if refOK && len(ref.Outs) == 2 && len(ref.Outs[1]) == len(ref.Outs[0]) {
+		bal, shares := 1.0, 0.0
+		for i, x := range ref.Outs[0] {
+			if i >= len(snaps) {
+				break
+			}
+			price := snaps[i].Close
+			switch {
+			case strategy.Action(x) == strategy.Buy && shares == 0 && bal > 0:
+				shares, bal = bal/price, 0
+			case strategy.Action(x) == strategy.Sell && shares > 0:
+				bal, shares = shares*price, 0
+			}
+			want := bal + shares*price - 1
+			if got := ref.Outs[1][i]; math.Abs(got-want) > 1e-9*(1+math.Abs(want)) {
+				add("outcome-not-following-actions", fmt.Sprintf("outcome as of snapshot %d is %v, following the recommended actions gives %v", i, got, want))
+				break
+			}
+		}
+		st.Probes["outcomes-compared-with-trade-simulation"]++
 	}
 	prev := -1
 	for r, row := range p.rows {
@@ -355,7 +379,7 @@ func (c14) Run(c *Case, st *Stats) []Violation {
 				close(in)
 			})
 			simrt.GoKind("client", func() {
-				if buildStrategy(c.spec()).Report(in).WriteToWriter(&buf2) == nil {
+				if c.strat().Report(in).WriteToWriter(&buf2) == nil {
 					done2 = true
 				}
 			})
